@@ -133,7 +133,7 @@ func C02real(r *ev.Report) {
 	})
 
 	// coordinate-pattern representations: unary forms on each, and Add/Subtract against a few partners in both orders
-	ext := CoordPatternReps()
+	ext := append(CoordPatternReps(), ConstMulBoundaryReps()...)
 	partners := []Rep{reps[0].Rep, {ref.G(), ref.I(1)}, {ref.Secp.Neg(ref.G()), ref.I(2)}, {HPoint(), ref.I(3)}, {ref.Secp.Neg(HPoint()), ref.I(1)}, {ref.Secp.Double(ref.G()), ref.I(5)}}
 	r.Bound("coordinate_pattern_representations", len(ext))
 	r.States.Add(int64(len(ext)))
